@@ -227,6 +227,32 @@ def c10(tier, rng, fam='C10'):
                     for i in range(nu):
                         b.step('hop', c=1 + i, h=ret(pay='late'))
                 out.append(b.q().done())
+    # a stream reset by its caller whose handler has not returned yet, then the connection ends:
+    # Serve still has to wait for that handler
+    for how in ('sread', 'swrite', 'stop'):
+        for kind in ('bidi', 'cs', 'ss'):
+            b = B(fam, 'end by %s after the caller reset a %s stream whose handler is still running' % (how, kind), ser=True)
+            b.step('sopen', c=1, kind=kind, hp=[])
+            b.step('send', c=1, pay='x')
+            b.step('cancel', c=1)
+            b.q()
+            b.step('fault', what=how)
+            if how == 'swrite':
+                b.step('ucall', c=90, pay='trigger', hp=[ret(pay='t')])
+            b.q()
+            b.step('hop', c=1, h=ret(code=1, msg='late'))
+            out.append(b.q().done())
+    # unary handlers in flight whose callers have a deadline (the request carries a timeout header)
+    for how in ('sread', 'swrite', 'stop'):
+        for nu in (1, 3):
+            b = B(fam, 'end by %s with %d unary handlers whose callers have a deadline' % (how, nu), ser=True)
+            for i in range(nu):
+                b.step('ucall', c=1 + i, pay='u%d' % i, to=H, hp=[dict(o='ctxwait'), ret(code=1, msg='ctx')])
+            b.q()
+            b.step('fault', what=how)
+            if how == 'swrite':
+                b.step('ucall', c=90, pay='trigger', hp=[ret(pay='t')])
+            out.append(b.q().done())
     # end of connection at each step of a small mixed conversation
     base = [('ucall', 1), ('sopen', 2), ('send', 2), ('recv', 2), ('send', 2), ('close', 2), ('recv', 2), ('recv', 2)]
     for pos in range(len(base) + 1):
@@ -620,7 +646,9 @@ def c14(tier, rng, fam='C14'):
         b = B(fam, 'history #%d of %d RPCs with all outcomes' % (si, nrpc), ser=bool(si % 2))
         for c in range(1, nrpc + 1):
             kind = rng.choice(['unary', 'unary', 'bidi', 'cs', 'ss'])
-            outc = rng.choice(['ok', 'ok', 'herr', 'cancel', 'deadline', 'earlyret', 'failopen', 'failsend'])
+            outc = rng.choice(['ok', 'ok', 'herr', 'cancel', 'deadline', 'earlyret', 'failopen', 'failsend', 'cancelunread'])
+            if outc == 'cancelunread' and kind in ('unary', 'cs'):
+                outc = 'cancel' 
             if outc == 'failsend' and kind in ('unary', 'ss'):
                 outc = 'ok' 
             if outc == 'failopen':
@@ -653,6 +681,13 @@ def c14(tier, rng, fam='C14'):
                 elif outc == 'earlyret':
                     b.step('sopen', c=c, kind=kind, hp=[ret()])
                     b.step('send', c=c, pay='x').step('send', c=c, pay='y').step('close', c=c).step('recv', c=c, n=2)
+                elif outc == 'cancelunread':
+                    # the caller takes one result, then cancels with more queued, and never receives again
+                    m_ = rng.choice([1, 2])
+                    b.step('sopen', c=c, kind=kind, hp=[dict(o='recv')] + [dict(o='send', pay='u%d' % i) for i in range(m_ + 1)] + [dict(o='ctxwait'), ret(code=1, msg='gone')])
+                    b.step('send', c=c, pay='go')
+                    b.step('recv', c=c)
+                    b.step('cancel', c=c)
                 elif outc == 'failsend':
                     # one write is refused while the connection stays up: the stream dies by its own Send
                     b.step('sopen', c=c, kind=kind, hp=[dict(o='ctxwait'), ret(code=1, msg='gone')])
